@@ -98,6 +98,7 @@ func macroDoc(r *Rng) []CTok {
 func runC07(ctx *Ctx) {
 	r := ctx.Rng.Fork()
 	c07Docs(ctx, r.Fork())
+	c07UrlMacros(ctx)
 	var seqs [][]CTok
 	for i := 0; i < ctx.Budget(30000, 1000000); i++ {
 		seqs = append(seqs, macroDoc(r))
@@ -539,4 +540,74 @@ func c07Docs(ctx *Ctx, r *Rng) {
 		}
 	}
 	ctx.Cov.Component("documents with macros vs their inlining: verdict and catalog (specification on the implementation)", cases, len(ctx.Violations), "")
+}
+
+// c07UrlMacros: macros whose bodies are CHILDREN of a URL — whole method blocks with their own Path directive, a Path
+// at URL level — pasted under two or three consecutive URLs: the document equals the one with every PASTE written out
+// (the copies keep the coordinates of the macro's text; "one Path per context" must go by the context, F44).
+func c07UrlMacros(ctx *Ctx) {
+	bodies := []string{
+		"GET\n  Path\n  {\"id\": 1}\n  200 any\n",
+		"GET\n  200 any\n",
+		"Path\n{\"id\": 1}\nGET\n  200 any\n",
+		"GET\n  Path\n  {\"id\": 1}\n  200 any\nPOST\n  Path\n  {\"id\": 2}\n  200 any\n",
+		"GET\n  Query\n  {\"q\": 1}\n  Path\n  {\"id\": 3}\n  200 any\n",
+	}
+	urls := []string{"/cats/{id}", "/dogs/{id}", "/birds/{id}"}
+	indent := func(s, ind string) string {
+		var b strings.Builder
+		for _, l := range strings.SplitAfter(s, "\n") {
+			if l != "" {
+				b.WriteString(ind + l)
+			}
+		}
+		return b.String()
+	}
+	cases := 0
+	for bi, body := range bodies {
+		for n := 1; n <= 3; n++ {
+			for _, between := range []string{"", "TYPE @t\n{}\n", "GET /other/{id}\n  Path\n  {\"id\": 9}\n  200 any\n"} {
+				for _, defFirst := range []bool{false, true} {
+					var docM, docI strings.Builder
+					docM.WriteString("JSIGHT 0.3\n")
+					docI.WriteString("JSIGHT 0.3\n")
+					def := "MACRO @m\n(\n" + indent(body, "  ") + ")\n"
+					if defFirst {
+						docM.WriteString(def)
+					}
+					for k := 0; k < n; k++ {
+						if k > 0 {
+							docM.WriteString(between)
+							docI.WriteString(between)
+						}
+						docM.WriteString("URL " + urls[k] + "\n  PASTE @m\n")
+						docI.WriteString("URL " + urls[k] + "\n" + indent(body, "  "))
+					}
+					if !defFirst {
+						docM.WriteString(def)
+					}
+					rm := RunProject(SingleFile([]byte(docM.String())), false)
+					ri := RunProject(SingleFile([]byte(docI.String())), false)
+					cases++
+					ctx.Cov.Count([]byte(docM.String()), n >= 2)
+					ctx.Cov.Hit(fmt.Sprintf("macro of URL children #%d pasted under %d URLs", bi, n))
+					if rm.Panic != "" || ri.Panic != "" {
+						continue
+					}
+					in := projectInput(SingleFile([]byte(docM.String())))
+					in["op"] = "inline"
+					in["inlined"] = docI.String()
+					switch {
+					case ri.Accepted() != rm.Accepted():
+						ctx.Violate(Violation{Kind: "wrong-output", Site: "macros", What: fmt.Sprintf("a macro of URL children pasted under %d URLs: with every PASTE written out: %s; with the macro: %s", n, ri.Verdict(), rm.Verdict()), Input: in,
+							Observed: rm.Verdict(), Expected: ri.Verdict(), Signature: "url-macro-verdict"})
+					case ri.Accepted() && !bytes.Equal(rm.JSON, ri.JSON):
+						ctx.Violate(Violation{Kind: "wrong-output", Site: "macros", What: "a macro of URL children: the document with the macro and the one with every PASTE written out have different catalogs: " + firstDiff(ri.JSON, rm.JSON), Input: in,
+							Signature: "url-macro-catalog"})
+					}
+				}
+			}
+		}
+	}
+	ctx.Cov.Component("macros of URL children (method blocks with their own Path, URL-level Path, JSON-RPC methods) pasted under 1-3 URLs vs the hand-inlined document", cases, len(ctx.Violations), "")
 }
